@@ -120,7 +120,7 @@ Qed.
 
 Definition pass (rows : list row) (run : bool * list nat) := sort_pass (rev (snd run)) (fst run) rows.
 
-Lemma passes rs : forall acc rows, total acc -> trans acc ->
+Lemma passes_fold rs : forall acc rows, total acc -> trans acc ->
   exists le, fold_left pass rs (isort acc rows) = isort le rows
              /\ peq le (spec_le_app (rev (flat rs)) acc) .
 Proof.
@@ -142,7 +142,7 @@ Qed.
 Theorem order_rows_lex spec rows : order_rows spec rows = isort (spec_le spec) rows.
 Proof.
   unfold order_rows. rewrite <- (isort_triv _ rows) at 1.
-  destruct (passes (runs (rev spec)) triv rows (total_triv _) (trans_triv _)) as (le & E & P).
+  destruct (passes_fold (runs (rev spec)) triv rows (total_triv _) (trans_triv _)) as (le & E & P).
   fold pass. rewrite E. apply isort_ext.
   eapply peq_trans; [exact P|]. rewrite flat_runs, rev_involutive. apply spec_le_app_triv.
 Qed.
